@@ -28,10 +28,13 @@ type unit struct {
 	run  func(repo string) (coq string, hashes map[string]string, err error)
 }
 
-var units = []unit{
-	{"Hagrid", genHagrid},
-	{"Formulas", genFormulas},
-	{"Consts", genConsts},
+// units register themselves from their own file's init() (one file per unit, so that
+// independent work never edits a shared list); run in name order.
+var units []unit
+
+func register(name string, run func(repo string) (string, map[string]string, error)) {
+	units = append(units, unit{name, run})
+	sort.Slice(units, func(i, j int) bool { return units[i].name < units[j].name })
 }
 
 func main() {
